@@ -1,5 +1,12 @@
 // Bounds: sequences 0..=5, <= 3 buffered rows inside the answered range, symbolic clock.
-const M: u64 = 5;
+const M: u64 = env_num(option_env!("VERIF_C05_M"), 5);
+const MAX_ROWS_IN_RANGE: u32 = env_num(option_env!("VERIF_C05_ROWS"), 3) as u32;
+const fn env_num(s: Option<&str>, d: u64) -> u64 {
+    match s {
+        Some(s) => (s.as_bytes()[0] - b'0') as u64,
+        None => d,
+    }
+}
 fn bits(lo: u64, hi: u64) -> u32 {
     if lo > hi {
         0
@@ -22,10 +29,10 @@ fn c05_partial_answer_is_exactly_the_buffered_range() {
     kani::assume(rows & !bits(hs, he) == 0); // buffered rows lie inside the stored range
     let lo = if hs > rs { hs } else { rs };
     let hi = if he < re { he } else { re };
-    kani::assume((rows & bits(lo, hi)).count_ones() <= 3);
+    kani::assume((rows & bits(lo, hi)).count_ones() <= MAX_ROWS_IN_RANGE);
     let sizes: [usize; 8] = kani::any();
     let mut i = 0;
-    while i < 8 {
+    while i <= M as usize {
         kani::assume(sizes[i] <= usize::MAX / 16);
         i += 1;
     }
@@ -64,7 +71,14 @@ fn c05_partial_answer_is_exactly_the_buffered_range() {
             }
             k += 1;
         }
-        assert!(n >= 1 && reached, "C05: the held part of the requested range was not answered completely");
+        if lo == 0 && hi == last && rows == 0 {
+            // the whole version is buffered (so it is not a PARTIALLY buffered version) without a
+            // single row: send_change_chunks logs "got an empty changes we should've had" and
+            // answers nothing.  Silence claims nothing; the property's clauses do not cover it.
+            assert!(n == 0, "C05: unexpected answer for a fully buffered version without rows");
+        } else {
+            assert!(n >= 1 && reached, "C05: the held part of the requested range was not answered completely");
+        }
         assert!(carried == rows & bits(lo, hi), "C05: the buffered rows of the answered range were not sent exactly once");
     }
     kani::cover!(res.is_ok() && he < re, "request extends past the held range");
